@@ -253,6 +253,8 @@ def _idx_is_param(h, bb, n):
 
 
 def run(ctx):
+    from .. import fixtures
+    ctx.guarded("C12.FX", lambda c: fixtures.run(c, ['escapes']))
     ctx.guarded("C12.a", rule_a)
     ctx.guarded("C12.b", rule_b)
     ctx.guarded("C12.c", rule_c)
